@@ -258,3 +258,223 @@ def _(self: QuestionK, survey: SurveyT) -> Opt[XNode]:
             SetNodeOk(some(result).kids[nb + j], survey, "setvalue", some(SV)[j]))))
     ensures(implies(not nocontrol and bool(SG), forall(0, nsg, lambda j:
             SetNodeOk(some(result).kids[nb + nsv + j], survey, "odk:setgeopoint", some(SG)[j]))))
+
+
+# ---------------------------------------------------------------- per-class controls (C04: element, attributes per type)
+
+declare_class("InputQuestion", "pyxform.question.InputQuestion")
+declare_class("TriggerQuestion", "pyxform.question.TriggerQuestion")
+declare_class("UploadQuestion", "pyxform.question.UploadQuestion")
+declare_class("RangeQuestion", "pyxform.question.RangeQuestion")
+InputK = Obj("InputQuestion", name=str, type=str, bind=Opt[Dict[str, BindVal]], flat=Opt[bool], trigger=Opt[str],
+             default=Opt[str], label=Opt[LabelVal], hint=Opt[LabelVal], guidance_hint=Opt[LabelVal],
+             media=Opt[Dict[str, LabelVal]], instance=Opt[StrMap], action=Opt[StrMap], control=Opt[StrMap],
+             query=Opt[str], choice_filter=Opt[str])
+TriggerK = Obj("TriggerQuestion", name=str, type=str, bind=Opt[Dict[str, BindVal]], flat=Opt[bool], trigger=Opt[str],
+               default=Opt[str], label=Opt[LabelVal], hint=Opt[LabelVal], guidance_hint=Opt[LabelVal],
+               media=Opt[Dict[str, LabelVal]], instance=Opt[StrMap], action=Opt[StrMap], control=Opt[StrMap])
+UploadK = Obj("UploadQuestion", name=str, type=str, bind=Opt[Dict[str, BindVal]], flat=Opt[bool], trigger=Opt[str],
+              default=Opt[str], label=Opt[LabelVal], hint=Opt[LabelVal], guidance_hint=Opt[LabelVal],
+              media=Opt[Dict[str, LabelVal]], instance=Opt[StrMap], action=Opt[StrMap], control=Opt[StrMap])
+RangeK = Obj("RangeQuestion", name=str, type=str, bind=Opt[Dict[str, BindVal]], flat=Opt[bool], trigger=Opt[str],
+             default=Opt[str], label=Opt[LabelVal], hint=Opt[LabelVal], guidance_hint=Opt[LabelVal],
+             media=Opt[Dict[str, LabelVal]], instance=Opt[StrMap], action=Opt[StrMap], control=Opt[StrMap],
+             parameters=Opt[StrMap])
+
+
+@spec
+def SubstF(survey: Ctx, text: BindVal, ctx: Ctx, use_current: bool, reference_parent: bool) -> str:
+    uninterpreted()
+
+
+@contract("TriggerQuestion.build_xml")
+def _(self: TriggerK, survey: SurveyQ) -> XNode:
+    properties("C04", "C02")
+    no_native("needs survey-element objects: exercised through the e2e oracles and the runtime monitor")
+    may_raise(PyXFormError, when=True)
+    Cd = some(self.control)
+    requires(self.control is not None and "tag" in Cd)
+    # C04: an acknowledge / note-like control is exactly the common skeleton: element from the type table, label and
+    # hint, ref = own path, the row's body attributes
+    ensures(result.nodeType == 1 and result.tagName == Cd["tag"] and result.kids == LabelHintNodes(self, survey))
+    ensures("ref" in result.attrs and implies("ref" not in Cd, result.attrs["ref"] == XPathOf(self)))
+    ensures(forall(0, len(keys(Cd)), lambda q: keys(Cd)[q] == "tag" or (keys(Cd)[q] in result.attrs
+            and result.attrs[keys(Cd)[q]] == Subst(ctx_of(survey), Cd[keys(Cd)[q]], ctx_of(self)))))
+    ensures(forall_str(lambda a: implies(a in result.attrs, a == "ref" or (a in Cd and a != "tag"))))
+
+
+@contract("UploadQuestion.build_xml")
+def _(self: UploadK, survey: SurveyQ) -> XNode:
+    properties("C04", "C02")
+    no_native("needs survey-element objects: exercised through the e2e oracles and the runtime monitor")
+    may_raise(PyXFormError, when=True)
+    Cd = some(self.control)
+    requires(self.control is not None and "tag" in Cd)
+    # C04: a media upload control is exactly the common skeleton (the media type is one of the row's body attributes)
+    ensures(result.nodeType == 1 and result.tagName == Cd["tag"] and result.kids == LabelHintNodes(self, survey))
+    ensures("ref" in result.attrs and implies("ref" not in Cd, result.attrs["ref"] == XPathOf(self)))
+    ensures(forall(0, len(keys(Cd)), lambda q: keys(Cd)[q] == "tag" or (keys(Cd)[q] in result.attrs
+            and result.attrs[keys(Cd)[q]] == Subst(ctx_of(survey), Cd[keys(Cd)[q]], ctx_of(self)))))
+    ensures(forall_str(lambda a: implies(a in result.attrs, a == "ref" or (a in Cd and a != "tag"))))
+
+
+@contract("RangeQuestion.build_xml")
+def _(self: RangeK, survey: SurveyQ) -> XNode:
+    properties("C04", "C02")
+    no_native("needs survey-element objects: exercised through the e2e oracles and the runtime monitor")
+    may_raise(PyXFormError, when=True)
+    Cd = some(self.control)
+    P = some(self.parameters)
+    hasP = bool(self.parameters)
+    requires(self.control is not None and "tag" in Cd)
+    ensures(result.nodeType == 1 and result.tagName == Cd["tag"] and result.kids == LabelHintNodes(self, survey))
+    # C04: the range control carries its parameters (start / end / step as validated upstream) verbatim as attributes ...
+    ensures(implies(hasP, forall(0, len(keys(P)), lambda r: keys(P)[r] in result.attrs
+                                 and result.attrs[keys(P)[r]] == P[keys(P)[r]])))
+    # ... next to the skeleton's ref and body attributes, and nothing else
+    ensures("ref" in result.attrs and implies("ref" not in Cd and not (hasP and "ref" in P),
+                                               result.attrs["ref"] == XPathOf(self)))
+    ensures(forall(0, len(keys(Cd)), lambda q: keys(Cd)[q] == "tag" or (keys(Cd)[q] in result.attrs
+            and implies(not (hasP and keys(Cd)[q] in P),
+                        result.attrs[keys(Cd)[q]] == Subst(ctx_of(survey), Cd[keys(Cd)[q]], ctx_of(self))))))
+    ensures(forall_str(lambda a: implies(a in result.attrs, a == "ref" or (a in Cd and a != "tag") or (hasP and a in P))))
+
+    @loop(0, index="j")
+    def _():
+        invariant(result.nodeType == 1 and result.tagName == Cd["tag"] and result.kids == LabelHintNodes(self, survey))
+        invariant(forall(0, j, lambda r: keys(P)[r] in result.attrs and result.attrs[keys(P)[r]] == P[keys(P)[r]]))
+        invariant("ref" in result.attrs and implies("ref" not in Cd and "ref" not in P, result.attrs["ref"] == XPathOf(self)))
+        invariant(forall(0, len(keys(Cd)), lambda q: keys(Cd)[q] == "tag" or (keys(Cd)[q] in result.attrs
+                  and implies(keys(Cd)[q] not in P,
+                              result.attrs[keys(Cd)[q]] == Subst(ctx_of(survey), Cd[keys(Cd)[q]], ctx_of(self))))))
+        invariant(forall_str(lambda a: implies(a in result.attrs, a == "ref" or (a in Cd and a != "tag") or a in P)))
+
+
+@contract("InputQuestion.build_xml")
+def _(self: InputK, survey: SurveyQ) -> XNode:
+    properties("C04", "C02", "C09")
+    no_native("needs survey-element objects: exercised through the e2e oracles and the runtime monitor")
+    may_raise(PyXFormError, when=True)
+    Cd = some(self.control)
+    requires(self.control is not None and "tag" in Cd)
+    ensures(result.nodeType == 1 and result.tagName == Cd["tag"] and result.kids == LabelHintNodes(self, survey))
+    # C09: a select_one_external row reads its choices from the external instance named in its type cell, filtered by
+    # exactly its own choice_filter (references resolved with current()); other input rows carry no query
+    ensures(implies(bool(self.query), "query" in result.attrs))
+    ensures(implies(bool(self.query) and not bool(self.choice_filter),
+                    result.attrs["query"] == "instance('" + some(self.query) + "')/root/item"))
+    ensures(implies(bool(self.query) and bool(self.choice_filter),
+                    result.attrs["query"] == "instance('" + some(self.query) + "')/root/item["
+                    + SubstF(ctx_of(survey), some(self.choice_filter), ctx_of(self), True, False) + "]"))
+    ensures("ref" in result.attrs and implies("ref" not in Cd, result.attrs["ref"] == XPathOf(self)))
+    ensures(forall(0, len(keys(Cd)), lambda q: keys(Cd)[q] == "tag" or (keys(Cd)[q] in result.attrs
+            and implies(not (bool(self.query) and keys(Cd)[q] == "query"),
+                        result.attrs[keys(Cd)[q]] == Subst(ctx_of(survey), Cd[keys(Cd)[q]], ctx_of(self))))))
+    ensures(forall_str(lambda a: implies(a in result.attrs, a == "ref" or (a in Cd and a != "tag")
+                                         or (a == "query" and bool(self.query)))))
+
+
+# ---------------------------------------------------------------- select controls: itemset wiring (C09)
+
+declare_class("MultipleChoiceQuestion", "pyxform.question.MultipleChoiceQuestion")
+OptRefK = Obj("Option", name=str, type=str, bind=Opt[Dict[str, BindVal]], flat=Opt[bool], trigger=Opt[str],
+              default=Opt[str], label=Opt[LabelVal], hint=Opt[LabelVal], guidance_hint=Opt[LabelVal],
+              media=Opt[Dict[str, LabelVal]], _choice_itext_ref=Opt[str])
+ItemsetQ = Obj("Itemset", name=str, options=List[OptRefK], requires_itext=bool, used_by_search=bool)
+SelectK = Obj("MultipleChoiceQuestion", name=str, type=str, bind=Opt[Dict[str, BindVal]], flat=Opt[bool], trigger=Opt[str],
+              default=Opt[str], label=Opt[LabelVal], hint=Opt[LabelVal], guidance_hint=Opt[LabelVal],
+              media=Opt[Dict[str, LabelVal]], instance=Opt[StrMap], action=Opt[StrMap], control=Opt[StrMap],
+              itemset=Opt[str], choices=Opt[ItemsetQ], choice_filter=Opt[str], parameters=Opt[StrMap])
+SurveyC = Obj("Survey", name=str, _xpath=Opt[Dict[str, Opt[Elem]]], choices=Opt[Dict[str, ItemsetQ]])
+
+
+@spec
+def SplitExt(p: str) -> Tuple[str, str]:
+    """os.path.splitext(p) (assumed contract in contracts/survey.py)."""
+    uninterpreted()
+
+
+@spec
+def ItemsetNodeOk(n: XNode, nodeset: str, vref: str, lref: str) -> bool:
+    """<itemset nodeset=...><value ref=.../><label ref=.../></itemset> and nothing else."""
+    inline()
+    return (n.nodeType == 1 and n.tagName == "itemset" and len(keys(n.attrs)) == 1 and n.attrs["nodeset"] == nodeset
+            and len(n.kids) == 2
+            and n.kids[0].tagName == "value" and len(n.kids[0].kids) == 0 and len(keys(n.kids[0].attrs)) == 1
+            and n.kids[0].attrs["ref"] == vref
+            and n.kids[1].tagName == "label" and len(n.kids[1].kids) == 0 and len(keys(n.kids[1].attrs)) == 1
+            and n.kids[1].attrs["ref"] == lref)
+
+
+@contract("MultipleChoiceQuestion.build_xml")
+def _(self: SelectK, survey: SurveyC) -> XNode:
+    properties("C09")
+    no_native("needs survey-element objects: exercised through the e2e oracles and the runtime monitor")
+    abstract_regex("pyxform.utils.PYXFORM_REFERENCE_REGEX")
+    may_raise(PyXFormError, when=True)
+    Cd = some(self.control)
+    B = some(self.bind)
+    P = some(self.parameters)
+    it = some(self.itemset)
+    ext = SplitExt(it)[1]
+    root = SplitExt(it)[0]
+    external = ext == ".csv" or ext == ".xml" or ext == ".geojson"
+    from_repeat = matches(it, "pyxform.utils.PYXFORM_REFERENCE_REGEX", "search")
+    hasP = self.parameters is not None
+    own = some(self.choices)
+    shared = some(survey.choices)
+    # the list as this select sees it: its own copy, else the survey-level list of that name
+    needs_itext = ((self.choices is not None and own.requires_itext)
+                   or (self.choices is None and bool(survey.choices) and it in shared and shared[it].requires_itext))
+    vref0 = "id" if ext == ".geojson" else "name"
+    lref0 = "title" if ext == ".geojson" else "label"
+    vref = P["value"] if (hasP and "value" in P) else vref0
+    lrefp = P["label"] if (hasP and "label" in P) else lref0
+    lref = "jr:itext(itextId)" if (not external and needs_itext) else lrefp
+    cf = SubstF(ctx_of(survey), some(self.choice_filter), ctx_of(self), True, False)
+    base = "instance('" + (root if external else it) + "')/root/item"
+    filtered = base + "[" + cf + "]" if (bool(self.choice_filter) and bool(cf)) else base
+    rnd = bool(self.parameters) and "randomize" in P and P["randomize"] == "true"
+    seeded = rnd and "seed" in P
+    seed = strip(Subst(ctx_of(survey), P["seed"], ctx_of(self))) if P["seed"].startswith("${") else P["seed"]
+    nodeset = ("randomize(" + filtered + (", " + seed if seeded else "") + ")") if rnd else filtered
+    nb = len(LabelHintNodes(self, survey))
+    requires(self.control is not None and "tag" in Cd)
+    requires(self.bind is not None and "type" in B)
+    # established by Survey._redirect_is_search_itext before the body is built: the items of a search() list shown
+    # through itext carry their itext reference
+    requires(implies(self.choices is not None and own.used_by_search and own.requires_itext,
+                     forall(0, len(own.options), lambda k: own.options[k]._choice_itext_ref is not None)))
+    # the skeleton (element, label/hint, ref, body attributes) is kept
+    ensures(result.nodeType == 1 and result.tagName == Cd["tag"])
+    ensures(len(result.kids) >= nb and forall(0, nb, lambda j: result.kids[j] == LabelHintNodes(self, survey)[j]))
+    ensures("ref" in result.attrs and implies("ref" not in Cd, result.attrs["ref"] == XPathOf(self)))
+    # C09: a select on a choice list or an external file (not a select from a repeat) gets exactly one itemset: it reads
+    # from the instance of the list / file named in its type cell, applies exactly its own choice_filter and
+    # randomize/seed, and takes value and label from its own parameters, the file kind's defaults, or the item's itext id
+    ensures(implies(bool(self.itemset) and not from_repeat, len(result.kids) == nb + 1
+                    and ItemsetNodeOk(result.kids[nb], nodeset, vref, lref)))
+    # a select without a list name of its own and not consumed by search() has no items at all
+    ensures(implies(not bool(self.itemset) and not (self.choices is not None and own.used_by_search), len(result.kids) == nb))
+    # a list consumed by search() is rendered as one inline item per choice, in order
+    ensures(implies(not bool(self.itemset) and self.choices is not None and own.used_by_search,
+                    len(result.kids) == nb + len(own.options)
+                    and forall(0, len(own.options), lambda k: result.kids[nb + k].tagName == "item"
+                               and len(result.kids[nb + k].kids) == 2 and result.kids[nb + k].kids[0].tagName == "label"
+                               and IsTextElem(result.kids[nb + k].kids[1], "value", own.options[k].name))))
+
+    @loop(0, index="i")
+    def _():
+        invariant(result.nodeType == 1 and result.tagName == Cd["tag"])
+        invariant("ref" in result.attrs and implies("ref" not in Cd, result.attrs["ref"] == XPathOf(self)))
+        invariant(len(result.kids) == nb + i and forall(0, nb, lambda j: result.kids[j] == LabelHintNodes(self, survey)[j]))
+        invariant(forall(0, i, lambda k: result.kids[nb + k].tagName == "item"
+                         and len(result.kids[nb + k].kids) == 2 and result.kids[nb + k].kids[0].tagName == "label"
+                         and IsTextElem(result.kids[nb + k].kids[1], "value", own.options[k].name)))
+
+
+@spec
+def IsTextElem(n: XNode, tag: str, text: str) -> bool:
+    """An element without attributes holding exactly one text node."""
+    return (n.nodeType == 1 and n.tagName == tag and len(keys(n.attrs)) == 0 and len(n.kids) == 1
+            and n.kids[0].nodeType == 3 and n.kids[0].data == text)
